@@ -287,7 +287,7 @@ def run(ctx):
 
     def add(kind, tr, lens, tif, cfg, m):
         traces.append(tr); kinds.append(kind); lens_l.append(lens); tif_l.append(tif)
-        cfg_l.append(cfg or dict(maxpr=0, rn=0, fn=0, ck=0, fnval=0)); meta.append(m)
+        cfg_l.append(dict(dict(maxpr=0, rn=0, fn=0, ck=0, fnval=0, rnbase=0), **(cfg or {}))); meta.append(m)
 
     # ---- (2) reader histories ----
     def reader_case(lens, layout, tif, nops, small):
@@ -401,6 +401,7 @@ def run(ctx):
                                ranges=[k, pr[0][0], pr[0][1]] if len(pr) == 1 and pr[0][0] != 'X' else ['X']))
                 off += p['n']
                 first = not p['succ']
+            m['cfg']['rnbase'] = prs[0]['rnval'] if prs and rn else 0
             tr.append(dict(op='w_close', size=len(data), eof1=eofs[0] if len(eofs) > 0 else [], eof2=eofs[1] if len(eofs) > 1 else []))
             if tif == 'le':
                 f2 = io.BytesIO()
